@@ -637,6 +637,116 @@ def interleaved_replay(case, seed):
     return core.result([])
 
 
+# ------------------------------------------------- chunk representations and object transport
+
+FORMS = ("bigendian", "strided", "negstride", "reused_buffer", "deepcopy_each", "pickle_each", "pickle_at",
+         "deepcopy_at")
+
+
+def _chunk_form(form, x, buf):
+    """the array object handed to compute_chunk for samples x (values always those of x)"""
+    k = len(x)
+    if form == "bigendian":
+        return x.astype(x.dtype.newbyteorder(">"))
+    if form == "strided":
+        base = np.full(2 * k + 1, 777.0, dtype=x.dtype)
+        base[1::2] = x
+        return base[1::2]
+    if form == "negstride":
+        return np.array(x[::-1], copy=True)[::-1]
+    if form == "reused_buffer":
+        buf[:k] = x           # the caller's one pre-allocated buffer, refilled for every chunk
+        return buf[:k]
+    return x
+
+
+def _transport_run(ctx, chunks, form, at):
+    import copy
+    import pickle
+
+    comp = computers.clone(ctx.comp0)
+    buf = np.zeros(max(chunks + [1]), dtype=ctx.dtype)
+    held, pos = [], 0
+    for j, k in enumerate(chunks + [None]):
+        if form in ("deepcopy_each", "pickle_each") or (form in ("pickle_at", "deepcopy_at") and j == at):
+            r = computers.call((lambda o: pickle.loads(pickle.dumps(o))) if form.startswith("pickle")
+                               else copy.deepcopy, comp)
+            if r[0] != "ok":
+                return r, None
+            comp = r[1]
+        if k is None:
+            break
+        r = computers.call(comp.compute_chunk, _chunk_form(form, ctx.x[pos:pos + k], buf))
+        pos += k
+        if r[0] != "ok":
+            return r, None
+        held.append(r[1])
+        if form == "reused_buffer":
+            buf[:] = 1e6      # the caller overwrites its buffer after the call returned
+    r = computers.call(comp.finalize)
+    if r[0] != "ok":
+        return r, None
+    return ("ok",), (np.concatenate(held + [r[1]]) if held else r[1])
+
+
+def _transport_one(ctx, n, chunks, form, at):
+    ref = ctx.ref[n]
+    case = ctx.case(chunks=chunks, form=form, at=at)
+    st, got = _transport_run(ctx, chunks, form, at)
+    route = "object" if "copy" in form or "pickle" in form else "chunk"
+    if st[0] != "ok":
+        return core.violation(ctx.tags(n, what="exception", op="transport", form=form, route=route),
+                              "chunks %r as %s: %s: %s" % (chunks, form, st[1], st[2]), case)
+    if got.shape != ref.shape:
+        return core.violation(ctx.tags(n, what="frame_count", op="transport", form=form, route=route),
+                              "chunks %r as %s: %r vs compute_full %r" % (chunks, form, got.shape, ref.shape),
+                              case)
+    if not _close(got, ref, ctx.dtype):
+        return core.violation(ctx.tags(n, what="values", op="transport", form=form, route=route),
+                              "chunks %r as %s%s: max|diff|=%r" % (
+                                  chunks, form, "" if at is None else " before call #%d" % at,
+                                  _maxdiff(got, ref)), case)
+    return None
+
+
+def transport_config(c, seed):
+    """every composition of n in {Nt-1, Nt} streamed through ONE live computer while (a) every chunk is
+    handed over in another representation - non-native byte order, every-other-sample view, negative
+    stride, the caller's single buffer that is overwritten after each call - or (b) the computer object
+    itself is transported between calls: copy.deepcopy / pickle round trip before EVERY call, and before
+    exactly ONE call for every position (incl. before finalize).  Oracle: compute_full of the samples."""
+    nt = c["Nt"]
+    ctx = Ctx(dict(c, Nmax=nt), seed)
+    if not ctx.in_domain:
+        return core.result(nontrivial=False, skipped=True, obs="out_of_domain")
+    viol = []
+    evals = 0
+    for n in (nt - 1, nt):
+        if ctx.ref[n] is None:
+            continue
+        for chunks in _compositions(n):
+            for form in FORMS:
+                ats = range(len(chunks) + 1) if form.endswith("_at") else (None,)
+                for at in ats:
+                    evals += 1
+                    v = _transport_one(ctx, n, chunks, form, at)
+                    if v is not None:
+                        viol.append(v)
+                        if len(viol) > 20:
+                            return core.result(viol, evals=evals, nontrivial_count=evals, obs=len(viol))
+    return core.result(viol, evals=evals, nontrivial_count=evals, obs=len(viol),
+                       sample=dict(config=c, Nt=nt, runs=evals))
+
+
+def transport_replay(case, seed):
+    c = case["config"]
+    chunks = case["chunks"]
+    n = sum(chunks)
+    ctx = Ctx(dict(c, Nmax=max(n, 1)), seed)
+    v = _transport_one(ctx, n, chunks, case["form"], case.get("at"))
+    return core.result([v] if v is not None else [])
+
+
 # ------------------------------------------------- lattices
 
 
@@ -727,6 +837,9 @@ def subchecks(tier, seed):
                 [dict(c, Nh=nh + 2) for c in si
                  if c["bank"] in ("gabor", "gammatone") and c["S"] in (2, 3) and c["pad"]
                  and c["window"] == "hamming"]
+    ntr = 7 if tier == "quick" else 10
+    tr_cfgs = [dict(c, Nt=ntr + (2 if c["kind"] == "si" else 0)) for c in held_cfgs
+               if c["kind"] == "si" or c["L"] in (3, 4)]
     il_alpha = [dict(kind="stft", bank="tri", L=5, S=2, style="causal", kaldi=False, window="hamming",
                      pad=True, energy=True, log=True, Ni=12),
                 dict(kind="stft", bank="tri", L=5, S=3, style="centered", kaldi=False, window="hamming",
@@ -771,6 +884,14 @@ def subchecks(tier, seed):
             "every composition of every n<=Nh fed to ONE live computer with all returned arrays held "
             "until after finalize, then concatenated (real aliasing semantics, no snapshots)",
             replay=lambda case: held_replay(case, seed), chunk=1, kind="explore"),
+        core.SubCheck(
+            "transport", tr_cfgs, lambda c: transport_config(c, seed),
+            "every composition of n in {Nt-1, Nt} through one live computer x {chunks in non-native byte "
+            "order / as every-other-sample view / negative stride / in the caller's single buffer that is "
+            "overwritten after every call; computer deep-copied or pickled and restored before every call; "
+            "before exactly one call, every position incl. finalize} vs compute_full",
+            axes=dict(forms=list(FORMS), Nt=ntr), replay=lambda case: transport_replay(case, seed), chunk=1,
+            kind="explore"),
         core.SubCheck(
             "compositions", comp_cfgs, lambda c: compositions_config(c, seed),
             "unmerged cross-check: every composition of every n<=Ncomp (2^Ncomp paths per "
